@@ -5,7 +5,9 @@ spec/Histogram.tla        histogram / Histogram as a fill machine: Conservation,
 spec/BinSearch.tla        the interpolation-search loop of get_bin_on_value_1d with a nondeterministic guess
 spec/Trace_Histogram.tla  validation of fills recorded on float meshes (rank abstraction)
 spec/Trace_BinSearch.tla  validation of the loop iterations sampled from the real function (sys.settrace)
+spec/BinSearchInd.tla, HistInd.tla   Apalache: loop invariant / conservation inductive for unbounded integers (thorough)
 """
+import concurrent.futures
 import random
 
 from .. import core
@@ -19,10 +21,9 @@ def strip(recs):
     return [dict((k, v) for k, v in r.items() if k != "real") for r in recs]
 
 
-def deep_binding(ctx, rnd, n, report):
+def deep_binding(ctx, recs, report):
     """Iterations of the real loop are behaviours of BinSearch.tla (coverage evidence; only a wrong
     *result* is a violation of the statement)."""
-    recs = hl.record_searches(rnd, n, report)
     if not recs:
         return
     trace = strip(recs)
@@ -49,6 +50,17 @@ def deep_binding(ctx, rnd, n, report):
     ctx.extra["binsearch_loop_binding"] = note
 
 
+def trace_phase(ctx, recs, searches, report):
+    trace = strip(recs)
+    ctx.trace_check("Trace_Histogram", "Trace_Histogram.cfg", trace,
+                    lambda r: "%s:dim=%d" % (r["kind"], len(r["edges"])))
+    if recs:
+        ctx.sample({"recorded_fill": recs[len(recs) // 2]})
+        ctx.binding_demo("Trace_Histogram", "Trace_Histogram.cfg", trace,
+                         lambda r: dict(r, oor=r["oor"] + 1) if not r["new"] else None)
+    deep_binding(ctx, searches, report)
+
+
 def run(ctx):
     tag = "thorough" if ctx.thorough else "quick"
     rnd = random.Random(ctx.seed)
@@ -57,50 +69,63 @@ def run(ctx):
     ctx.assume("weights are dyadic rationals (k/8 scaled by powers of two) so that floating-point sums are exact")
     ctx.assume("the interpolation guess of get_bin_on_value_1d lies in ind_min..ind_max (monotone rounding); "
                "the model takes every such guess")
+    # The TLC runs are independent processes: they run side by side while this process records and replays.
+    pool = concurrent.futures.ThreadPoolExecutor(max_workers=5)
+    try:
+        # ---- design level (+ export of the scenarios)
+        f_mc = pool.submit(ctx.mc, "Histogram", "Histogram_%s.cfg" % tag, coverage=True, must_cover=("Fill", "ElemFill"))
+        f_search = pool.submit(hl.mc_export, ctx, "BinSearch", "BinSearch_%s.cfg" % tag,
+                               must_cover=SEARCH_ACTIONS, min_records=5000)
+        f_fill = pool.submit(ctx.export, "Histogram", "Histogram_export.cfg", min_records=5000)
+        f_hist = pool.submit(hl.export_generate, ctx, "Histogram", "Histogram_hist_export.cfg",
+                             num=6000 if ctx.thorough else 800, depth=10, min_records=500)
+        f_apa = None
+        if ctx.thorough:
+            # unbounded integer edges / weights: the loop invariant and conservation are inductive
+            f_apa = pool.submit(hl.apalache_obligations, ctx, [
+                ("BinSearchInd", "Init", "IndInv", 0), ("BinSearchInd", "IndInit", "IndInv", 1),
+                ("BinSearchInd", "IndInit", "Shrinks", 1),
+                ("HistInd", "Init", "Conservation", 0), ("HistInd", "IndInit", "Conservation", 1)])
 
-    # ---- design level
-    ctx.mc("Histogram", "Histogram_%s.cfg" % tag, coverage=True, must_cover=("Fill", "ElemFill"))
-    srecs = hl.mc_export(ctx, "BinSearch", "BinSearch_%s.cfg" % tag, must_cover=SEARCH_ACTIONS, min_records=5000)
+        # ---- code -> spec: float meshes of 2..12 edges in 1..3 dimensions, rank-abstracted
+        # (all random choices are made here, in a fixed order)
+        embs = hl.embeddings(ctx.thorough, rnd)
+        ctx.extra["embeddings"] = [e.name for e in embs]
+        recs = []
+        for _ in range(1500 if ctx.thorough else 150):
+            recs.extend(hl.record_session(rnd, report))
+        searches = hl.record_searches(rnd, 4000 if ctx.thorough else 600, report)
+        f_trace = pool.submit(trace_phase, ctx, recs, searches, report)
 
-    # ---- spec -> code
-    embs = hl.embeddings(ctx.thorough, rnd)
-    ctx.extra["embeddings"] = [e.name for e in embs]
-    n = hl.replay_search(ctx, srecs, embs, report)
-    for r in srecs:
-        ctx.case(["search", r["arr"], r["val"]], nontrivial=len(r["arr"]) > 2, traces=len(embs))
-    ctx.sample({"spec_search": srecs[len(srecs) // 2], "real_calls": n})
-
-    frecs = ctx.export("Histogram", "Histogram_export.cfg", min_records=5000)
-    hrecs = hl.export_generate(ctx, "Histogram", "Histogram_hist_export.cfg",
-                               num=6000 if ctx.thorough else 1200, depth=10, min_records=1000)
-    for k, rec in enumerate(frecs):
-        # all embeddings on one-dimensional meshes (where the search does the work), a rotating
-        # selection on the larger multi-dimensional families
-        if len(rec["edges"]) == 1 or ctx.thorough:
-            use = embs
-        else:
-            use = [embs[(k + j) % len(embs)] for j in range(4)]
-        m = hl.replay_fills(ctx, rec, use, report, tuples=(k % 7 == 0))
-        ctx.case(["fill", rec], nontrivial=True, traces=m)
-    for k, rec in enumerate(hrecs):
-        use = embs if ctx.thorough else [embs[(k + j) % len(embs)] for j in range(5)]
-        m = hl.replay_fills(ctx, rec, use, report, tuples=(k % 5 == 0))
-        ctx.case(["history", rec], nontrivial=True, traces=m)
-    ctx.sample({"spec_fill": frecs[len(frecs) // 3]})
-    ctx.sample({"spec_history": hrecs[len(hrecs) // 2]})
-
-    # ---- code -> spec: float meshes of 2..12 edges in 1..3 dimensions, rank-abstracted
-    recs = []
-    for _ in range(1500 if ctx.thorough else 220):
-        recs.extend(hl.record_session(rnd, report))
-    trace = strip(recs)
-    ctx.trace_check("Trace_Histogram", "Trace_Histogram.cfg", trace,
-                    lambda r: "%s:dim=%d" % (r["kind"], len(r["edges"])))
-    if recs:
-        ctx.sample({"recorded_fill": recs[len(recs) // 2]})
-        ctx.binding_demo("Trace_Histogram", "Trace_Histogram.cfg", trace,
-                         lambda r: dict(r, oor=r["oor"] + 1) if not r["new"] else None)
-    deep_binding(ctx, rnd, 4000 if ctx.thorough else 600, report)
+        # ---- spec -> code
+        srecs = f_search.result()
+        n = hl.replay_search(ctx, srecs, embs, report)
+        for r in srecs:
+            ctx.case(["search", r["arr"], r["val"]], nontrivial=len(r["arr"]) > 2, traces=len(embs))
+        ctx.sample({"spec_search": srecs[len(srecs) // 2], "real_calls": n})
+        frecs = f_fill.result()
+        for k, rec in enumerate(frecs):
+            # all embeddings on one-dimensional meshes (where the search does the work), a rotating
+            # selection on the larger multi-dimensional families
+            if len(rec["edges"]) == 1 or ctx.thorough:
+                use = embs
+            else:
+                use = [embs[(k + j) % len(embs)] for j in range(4)]
+            m = hl.replay_fills(ctx, rec, use, report, tuples=(k % 7 == 0))
+            ctx.case(["fill", rec], nontrivial=True, traces=m)
+        hrecs = f_hist.result()
+        for k, rec in enumerate(hrecs):
+            use = embs if ctx.thorough else [embs[(k + j) % len(embs)] for j in range(5)]
+            m = hl.replay_fills(ctx, rec, use, report, tuples=(k % 5 == 0))
+            ctx.case(["history", rec], nontrivial=True, traces=m)
+        ctx.sample({"spec_fill": frecs[len(frecs) // 3]})
+        ctx.sample({"spec_history": hrecs[len(hrecs) // 2]})
+        f_mc.result()
+        f_trace.result()
+        if f_apa is not None:
+            f_apa.result()
+    finally:
+        pool.shutdown(wait=True)
 
     return ctx.finish(
         rule="S2C: every (array, value) of BinSearch.tla (arrays of 2..5 (thorough 7) and 12 (10..12) edges) on "
